@@ -14,7 +14,7 @@ from . import sheetprop as P
 
 FEATURES = 'media,amp,stmt,str,url,attr,var,isel,istr,keyframes,fontface'.split(',')
 RULE = ('cases = (program, file tree, options); the tree is compiled from disk by the real compiler and compared with the pasted single text (real compiler) and with the import + evaluator '
-        'model; one case in four has an imported file removed (must be an error); distinct = distinct (program, tree); non-trivial = at least two files, or a sub-directory, or a nested import')
+        'model; one case in four has an imported file removed (must be an error); chains of nested imports of every depth up to the deepest accepted; a tree with a broken imported file compiled, repaired and compiled again in one process; distinct = distinct (program, tree); non-trivial = at least two files, or a sub-directory, or a nested import')
 ASSUMPTIONS = ['files are cut at top-level statement boundaries (an @import statement stands where a top-level statement can stand)',
                'the temporary tree is the only thing on the import path (os.path.exists against real directories)']
 TRUSTED = ['modelled by hand: p_statement_import (coq/Model/Import.v), evaluator (coq/Model/Eval.v)', 'the pasted text is what textual inclusion means (harness/gens/sheet.py show)']
@@ -22,6 +22,7 @@ LEVEL = 'other'
 EXPLANATION = ('partial: proved on the import model (C14_position, C14_import_equals_paste, C14_missing_reported, C14_too_deep_reported, C14_other_imports_kept); that the real parser shares '
                'one scope across files and splices the units as the model says is decided by the correspondence against pasted text and against the model on random file trees')
 MODS = ['Model.Ast', 'Model.Fmt', 'Model.Eval', 'Model.Import']
+IMPORT_LIMIT = 8          # hops; compared with the regenerated Gen.PLimits.import_depth_limit by C20_limits
 
 
 def rel_spelling(rng, from_dir, to_dir, name, made_dirs):
@@ -181,6 +182,57 @@ def run(ctx):
         with impl.Pool() as pool:
             a_tree = pool.run([{'kind': 'compile_file', 'path': os.path.join(c['root'], 'main.less'), 'opts': SC.impl_opts(c['opts'])} for c in cases], timeout=30)
             a_flat = pool.run([{'kind': 'compile', 'text': c['pasted'], 'opts': SC.impl_opts(c['opts'])} for c in cases], timeout=30)
+        # ---- chains of nested imports up to the deepest level the code accepts (every file adds a variable and a rule and uses the
+        # variable of the file it imports), and one level beyond: == the pasted text
+        lim = IMPORT_LIMIT
+        chain_cases = []
+        for hops in list(range(1, lim + 2)) + [lim + 1]:
+            root = os.path.join(base, 'chain%d_%d' % (hops, len(chain_cases)))
+            os.makedirs(root)
+            sub = rng.random() < 0.5
+            texts = []
+            for i in range(hops + 1):
+                own = '@v%d: %dpx;\n.r%d { width: @v%d; %s }\n' % (i, i + 1, i, i, ('height: @v%d;' % (i + 1)) if i < hops else '')
+                texts.append(own)
+                d = os.path.join(root, *(['s'] * (i % 2 if sub else 0)))
+                os.makedirs(d, exist_ok=True)
+                imp = ''
+                if i < hops:
+                    nxt_in_sub = sub and ((i + 1) % 2 == 1)
+                    here_in_sub = sub and (i % 2 == 1)
+                    rel = ('s/' if nxt_in_sub and not here_in_sub else ('../' if here_in_sub and not nxt_in_sub else '')) + 'c%d' % (i + 1)
+                    imp = '@import "%s";\n' % rel
+                open(os.path.join(d, 'c%d.less' % i), 'w').write(imp + own)
+            pasted = ''.join(reversed(texts))                 # the innermost file's text comes first (imports stand at the top)
+            chain_cases.append({'root': root, 'hops': hops, 'pasted': pasted})
+        # ---- a tree whose imported file is broken (rejected), then repaired, compiled again in the SAME process: == the pasted text
+        hist_cases = []
+        for k in range(6 if quick else 60):
+            root = os.path.join(base, 'hist%d' % k)
+            good = '@hv: %dpx;\n.imp%d { top: @hv; }\n' % (k + 1, k)
+            bad = rng.choice(['.imp { top: ;\n', '@import "no-such-file-%d";\n' % k + good, '.imp { top: @undefined-%d; }\n' % k, good + '}\n'])
+            main = '@import "%s";\n.main%d { left: @hv; }\n' % (rng.choice(['part', 'part.less', './part']), k)
+            ops = [['write', os.path.join(root, 'main.less'), main], ['write', os.path.join(root, 'part.less'), bad], ['compile', os.path.join(root, 'main.less')],
+                   ['write', os.path.join(root, 'part.less'), good], ['compile', os.path.join(root, 'main.less')]]
+            hist_cases.append({'ops': ops, 'pasted': good + '.main%d { left: @hv; }\n' % k, 'bad': bad})
+        with impl.Pool() as pool:
+            c_tree = pool.run([{'kind': 'compile_file', 'path': os.path.join(c['root'], 'c0.less'), 'opts': {}} for c in chain_cases], timeout=30)
+            c_flat = pool.run([{'kind': 'compile', 'text': c['pasted'], 'opts': {}} for c in chain_cases], timeout=30)
+            h_res = pool.run([{'kind': 'file_history', 'ops': c['ops'], 'opts': {}} for c in hist_cases], timeout=60)
+            h_flat = pool.run([{'kind': 'compile', 'text': c['pasted'], 'opts': {}} for c in hist_cases], timeout=30)
+        for c, t, f in zip(chain_cases, c_tree, c_flat):
+            out['evaluations'] += 1
+            if c['hops'] <= lim + 1 and not (t.get('r') == 'ok' and f.get('r') == 'ok' and t.get('css') == f.get('css')):
+                out['spec_mismatch'].append({'input': {'chain_of_nested_imports': c['hops'], 'pasted': c['pasted'], 'opts': {}}, 'impl': t,
+                                             'spec': {'the pasted single text compiles to': f}, 'classes': []})
+        for c, t, f in zip(hist_cases, h_res, h_flat):
+            out['evaluations'] += 1
+            rs = t.get('results') or [{}, {}]
+            if not (len(rs) == 2 and rs[0].get('r') == 'error' and rs[1].get('r') == 'ok' and f.get('r') == 'ok' and rs[1].get('css') == f.get('css')):
+                out['spec_mismatch'].append({'input': {'history': [[o[0], os.path.basename(o[1])] + o[2:] for o in c['ops']], 'pasted': c['pasted'], 'opts': {}}, 'impl': t,
+                                             'spec': {'first compilation: error; second (file repaired): the pasted single text, which compiles to': f}, 'classes': []})
+        agg['import_chains'] = len(chain_cases)
+        agg['broken_then_repaired_histories'] = len(hist_cases)
         rows = []
         nontrivial = 0
         for c, t, f in zip(cases, a_tree, a_flat):
